@@ -548,6 +548,12 @@ func (x *Exec) havocTarget(h *HeapState, mt modTarget) *HeapState {
 		return h
 	}
 	v := x.freshVal("hv", mt.loc.T)
+	// whatever the callee stored there refers to objects that exist by then (fresh symbols: asserting it globally is harmless)
+	if h.next.S != "" {
+		for _, fact := range x.wfFacts(mt.loc.T, v.T, h.next) {
+			x.S.Assert(fact)
+		}
+	}
 	return x.H.StoreLoc(h, mt.loc, v.T)
 }
 
